@@ -123,7 +123,7 @@ def configs(subject, k):
     return out
 
 
-PATTERNS = {"init": ("init",), "zero": ("zero",), "pat1": ("pat", 0, 1.0), "pat3": ("pat", 1, 3.0), "patB": ("pat", 1, 0.5)}
+PATTERNS = {"init": ("init",), "zero": ("zero",), "pat1": ("pat", 0, 1.0), "pat3": ("pat", 1, 3.0), "patB": ("pat", 1, 0.5), "patS": ("pat", 0, 0.05)}
 COND_PATTERNS = ("init", "zero", "pat1", "patB")  # conditioner-based subjects: scale-3 weights saturate every softmax
 
 
@@ -196,14 +196,14 @@ def cap_conditioner(subject, cfg, m, cap=4.0):
 # ----------------------------------------------------------------------------- conditioners
 
 
-def resnet(ctx, act="relu", hidden=4, blocks=1, bn=False):
+def resnet(ctx, act="relu", hidden=4, blocks=1, bn=False, dropout=0.0):
     a = {"relu": F.relu, "tanh": torch.tanh}[act]
-    return lambda i, o: nets.ResidualNet(i, o, hidden_features=hidden, context_features=ctx, num_blocks=blocks, activation=a, use_batch_norm=bn)
+    return lambda i, o: nets.ResidualNet(i, o, hidden_features=hidden, context_features=ctx, num_blocks=blocks, activation=a, use_batch_norm=bn, dropout_probability=dropout)
 
 
-def convnet(ctx, act="relu", hidden=4, blocks=1):
+def convnet(ctx, act="relu", hidden=4, blocks=1, bn=False, dropout=0.0):
     a = {"relu": F.relu, "tanh": torch.tanh}[act]
-    return lambda i, o: nets.ConvResidualNet(i, o, hidden_channels=hidden, context_channels=ctx, num_blocks=blocks, activation=a)
+    return lambda i, o: nets.ConvResidualNet(i, o, hidden_channels=hidden, context_channels=ctx, num_blocks=blocks, activation=a, use_batch_norm=bn, dropout_probability=dropout)
 
 
 class MLPCond(nn.Module):
@@ -222,11 +222,11 @@ class MLPCond(nn.Module):
 
 def cond_fn(cfg):
     ctx = 2 if cfg.get("context") else None
-    if cfg.get("dims", "2d") == "4d":
-        return convnet(ctx, cfg.get("act", "relu"))
+    if cfg.get("dims", "2d").startswith("4d"):
+        return convnet(ctx, cfg.get("act", "relu"), bn=cfg["dims"] == "4d_bn", dropout=0.5 if cfg["dims"] == "4d_do" else 0.0)
     if cfg.get("net", "resnet") == "mlp":
         return lambda i, o: MLPCond(i, o, ctx)
-    return resnet(ctx, cfg.get("act", "relu"), bn=cfg.get("net") == "resnet_bn")
+    return resnet(ctx, cfg.get("act", "relu"), bn=cfg.get("net") == "resnet_bn", dropout=0.5 if cfg.get("net") == "resnet_do" else 0.0)
 
 
 # ----------------------------------------------------------------------------- spline-function adapters
@@ -536,7 +536,7 @@ def _coupling(cls):
             return T.UMNNCouplingTransform(mask, cond_fn(c), integrand_net_layers=[6, 6], cond_size=3, nb_steps=c["nb_steps"], solver=c["solver"],
                                            apply_unconditional_transform=c["uncond"])
         img_shape = None
-        if c["dims"] == "4d" and c["uncond"]:
+        if c["dims"].startswith("4d") and c["uncond"]:
             img_shape = list(_coupling_shape(c)[1:])
         return getattr(T, cls)(mask, cond_fn(c), num_bins=c["bins"], tails=_tails(c), tail_bound=_tb(c), apply_unconditional_transform=c["uncond"], img_shape=img_shape)
     return b
@@ -553,9 +553,9 @@ def _coupling_ctx(c):
     return (2,) if c["dims"] == "2d" else (2, 2, 1)
 
 
-CPL_BASE = {"mask": [[1, 0, 1], [0, 1], [1, 0], [0, 1, 0], [0, 0, 1], [-1.0, 0.5, 2.0]], "dims": ["2d", "4d"], "context": [False, True], "act": ["relu", "tanh"]}
-reg(Subject("AffineCouplingTransform", dict(CPL_BASE, scale_act=["default", "general"], net=["resnet", "mlp", "resnet_bn"]), _coupling("AffineCouplingTransform"), _coupling_shape, ctx=_coupling_ctx, kind="coupling", patterns=COND_PATTERNS))
-reg(Subject("AdditiveCouplingTransform", dict(CPL_BASE, net=["resnet", "mlp"]), _coupling("AdditiveCouplingTransform"), _coupling_shape, ctx=_coupling_ctx, kind="coupling", patterns=COND_PATTERNS))
+CPL_BASE = {"mask": [[1, 0, 1], [0, 1], [1, 0], [0, 1, 0], [0, 0, 1], [-1.0, 0.5, 2.0]], "dims": ["2d", "4d", "4d_bn", "4d_do"], "context": [False, True], "act": ["relu", "tanh"]}
+reg(Subject("AffineCouplingTransform", dict(CPL_BASE, scale_act=["default", "general"], net=["resnet", "mlp", "resnet_bn", "resnet_do"]), _coupling("AffineCouplingTransform"), _coupling_shape, ctx=_coupling_ctx, kind="coupling", patterns=COND_PATTERNS))
+reg(Subject("AdditiveCouplingTransform", dict(CPL_BASE, net=["resnet", "mlp", "resnet_do"]), _coupling("AdditiveCouplingTransform"), _coupling_shape, ctx=_coupling_ctx, kind="coupling", patterns=COND_PATTERNS))
 
 
 def _zero_knots(m, cfg, pattern):
@@ -564,7 +564,7 @@ def _zero_knots(m, cfg, pattern):
     return spline_knots(None, uniform=True)(m, cfg, pattern)
 
 
-PW_AXES = dict(CPL_BASE, bins=[3, 1, 2, 5], tb=[None, 1.0, 2.5, 32.0], uncond=[False, True], net=["resnet", "mlp"])
+PW_AXES = dict(CPL_BASE, bins=[3, 1, 2, 5], tb=[None, 1.0, 2.5, 32.0], uncond=[False, True], net=["resnet", "mlp", "resnet_do"])
 for cls, fam in (("PiecewiseLinearCouplingTransform", "linear"), ("PiecewiseQuadraticCouplingTransform", "quadratic"), ("PiecewiseCubicCouplingTransform", "cubic"),
                  ("PiecewiseRationalQuadraticCouplingTransform", "rq")):
     ax = dict(PW_AXES)
@@ -602,7 +602,7 @@ def _ar(cls):
     def b(c):
         a = {"relu": F.relu, "tanh": torch.tanh}[c["act"]]
         kw = dict(features=c["features"], hidden_features=c["hidden"], context_features=2 if c["context"] else None, num_blocks=c["blocks"],
-                  use_residual_blocks=c["blocktype"] == "residual", random_mask=c["blocktype"] == "ff_random", activation=a, use_batch_norm=c["bn"])
+                  use_residual_blocks=c["blocktype"] == "residual", random_mask=c["blocktype"] == "ff_random", activation=a, use_batch_norm=c["bn"], dropout_probability=c.get("dropout", 0.0))
         if cls == "MaskedAffineAutoregressiveTransform":
             return T.MaskedAffineAutoregressiveTransform(**kw)
         if cls == "MaskedUMNNAutoregressiveTransform":
@@ -616,7 +616,7 @@ def _ar(cls):
     return b
 
 
-AR_BASE = {"features": [3, 1, 2, 4], "hidden": [5, 2], "context": [False, True], "blocks": [1, 0, 2], "blocktype": ["residual", "ff", "ff_random"], "act": ["relu", "tanh"], "bn": [False, True]}
+AR_BASE = {"features": [3, 1, 2, 4], "hidden": [5, 2], "context": [False, True], "blocks": [1, 0, 2], "blocktype": ["residual", "ff", "ff_random"], "act": ["relu", "tanh"], "bn": [False, True], "dropout": [0.0, 0.5]}
 
 
 reg(Subject("MaskedAffineAutoregressiveTransform", dict(AR_BASE), _ar("MaskedAffineAutoregressiveTransform"), lambda c: (c["features"],), ctx=lambda c: (2,) if c["context"] else None, kind="ar", patterns=COND_PATTERNS))
@@ -695,7 +695,7 @@ def valid(subject, cfg):
         if subject.name != "UMNNCouplingTransform" or True:
             pass
     if subject.kind in ("coupling", "coupling-spline", "umnn") and "mask" in cfg:
-        if cfg["dims"] == "4d" and cfg.get("net") in ("mlp", "resnet_bn"):
+        if cfg["dims"].startswith("4d") and cfg.get("net") in ("mlp", "resnet_bn", "resnet_do"):
             return False
     if subject.name == "MultiscaleCompositeTransform":
         shape, sd, n_ = cfg["shape"], cfg["split_dim"], cfg["stages"]
